@@ -130,6 +130,14 @@ def wrapper_frame(it, obj, mark: int, what: str = "call") -> None:
                 "are-independent)", z3.BoolVal(not writes), kind="frame", note="attributes written: " + ", ".join(writes))
 
 
+def exception_untouched(it, exc, mark: int, clause: str) -> None:
+    """An exception that passes through a wrapper is the caller's to inspect: its cause chain (`__cause__`,
+    `__suppress_context__`, set by `raise e from c`), its `args` and any other attribute are what the function left.
+    Checked over the log of attribute stores since `mark` (stores by `raise ... from ...` included)."""
+    writes = sorted({n for (o, n) in it.st.ghost.get("$attr_writes", [])[mark:] if o.eq(exc)})
+    it.st.check(clause, z3.BoolVal(not writes), note="attributes of the exception written: " + ", ".join(writes))
+
+
 def named_args(cargs, *names):
     """The arguments of an intercepted call by parameter name, whether the caller passed them positionally or by keyword
     (a refactoring may switch between the two for positional-or-keyword parameters): names in declaration order."""
